@@ -41,7 +41,7 @@ def opGraph (j : Json) : Json :=
   jObj [
     ("noroot", perRoot false),
     ("root", perRoot true),
-    ("closure", jArr (nodes.map fun x => match closure hyp (n * n + n + 2) x with
+    ("closure", jArr (nodes.map fun x => match closure hyp n x with
         | some l => jNats l | none => jStr "fuel")),
     ("roots", jObj (poss.map fun p => (p, jNats (roots hyp n pos p)))),
     ("leaves", jObj (poss.map fun p => (p, jNats (leaves hypo n pos p)))),
@@ -53,7 +53,6 @@ def opIc (j : Json) : Json :=
   let n := getNat j "n"
   let hyp := lookupAdj ((getArr j "hyp").map natList)
   let pos := lookupStr (strList ((j.getObjVal? "pos").toOption.getD (Json.arr #[])))
-  let fuel := n * n + n + 2
   let words := (getArr j "words").map fun w =>
     match asList w with
     | [c, s] => (asNat c, natList s)
@@ -69,7 +68,7 @@ def opIc (j : Json) : Json :=
       let ws := (getArr j "weights").map ratOf
       let tot := (j.getObjVal? "totals").toOption.getD (Json.mkObj [])
       { node := fun i => ws.getD i 0, total := fun p => ratOf ((tot.getObjVal? p).toOption.getD Json.null) }
-    else Ic.compute hyp fuel pos (getBool j "distribute") sm words
+    else Ic.compute hyp n pos (getBool j "distribute") sm words
   let nodes := List.range n
   jObj [
     ("node", jArr (nodes.map fun i => jRat (fr.node i))),
